@@ -57,8 +57,10 @@ PROPS = {
                                         "modulated sampling (FFT)"], assumptions=["A-NUMPY pm.pad", "ChannelSamples.__post_init__ assertions hold for the padded arrays (class invariant)"]),
     "C08": dict(lemmas=[], not_decided=["ParamObj.build cache comparison, Sequence.build replay loop, store/verify_parametrization, MappableRegister.build_register: bounded stand-in (template vs direct construction)"],
                 assumptions=["A-NUMPY pm.AbstractArray conversion is a function of (value, dtype)"]),
-    "C19": dict(lemmas=[], not_decided=["uniqueness of the sorted permutation, hashing, define_register / build_register / weight lookup: bounded stand-in on generated layouts"],
-                assumptions=["A-NUMPY np.lexsort sorts by its last key first (stable)"]),
+    "C19": dict(lemmas=[], not_decided=["uniqueness of the sorted permutation, hashing, define_register / build_register / per-qubit weight lookup (np.isclose matching): bounded stand-in on generated layouts"],
+                assumptions=["A-NUMPY np.lexsort sorts by its last key first (stable)",
+                             "A-NUMPY a[idx] with an integer index array is a function NP_TAKE(a, idx) (rows of a in the order idx); pm.AbstractArray.__getitem__/as_array/copy preserve the value",
+                             "A-NUMPY np.array(seq) is a function of the element sequence and its length"]),
     "C17": dict(lemmas=[], level="other",
                 ownership=["pulser-core/pulser/devices", "pulser-core/pulser/channels", "pulser-core/pulser/noise_model.py", "pulser-core/pulser/register",
                            "pulser-core/pulser/backend", "pulser-core/pulser/json", "pulser-core/pulser/result.py", "pulser-simulation/pulser_simulation"],
